@@ -69,6 +69,9 @@ def rangeOk (op : String) (res : String) : Bool :=
     | none => false
   | _ => true
 
+def saltBytes (tok : String) : List UInt8 :=
+  if tok.startsWith "s:" then (unhex (tok.drop 2).toString).getD [] else []
+
 def prng (c : Case) : Verdict :=
   let ops := listOf (c.input.getD "ops" "-")
   let res := listOf (c.output.getD "res" "-")
@@ -76,9 +79,26 @@ def prng (c : Case) : Verdict :=
   | none => .bad "prng: no draws"
   | some draws =>
     let kinds := ops.map fun o => (o.take 1).toString
-    let tag := s!"{if c.input.getD "salt" "-" = "-" then "plain" else "salted"},{"".intercalate kinds.eraseDups}"
+    let salt := c.input.getD "salt" "-"
+    let salt2 := c.input.getD "salt2" "-"
+    let a := saltBytes salt
+    let b2 := saltBytes salt2
+    -- salts are byte strings; the class records the length range and how the second salt relates
+    let saltClass := if salt = "-" then "plain"
+      else if a.length ≤ 32 then "salted" else "salted-long"
+    -- the model's prediction: same HMAC key block (salts equal up to trailing NULs) ⇒ same seed
+    let sameBlock := a.length ≤ hmacBlock ∧ b2.length ≤ hmacBlock ∧ saltKey id a = saltKey id b2
+    let rel := if salt = "-" then "" else if salt2 = salt then ",same-salt"
+      else if sameBlock then ",nul-padded-salt"
+      else if a.take 32 = b2.take 32 ∧ a.length > 32 then ",shared-prefix32"
+      else ",other-salt"
+    let tag := s!"{saltClass}{rel},{"".intercalate kinds.eraseDups}"
+    let s2eq := c.output.getD "s2eq" "na"
     if c.output.getD "again" "?" ≠ "true" then .propFail tag "same-seed-different-stream"
-    else if c.output.getD "differs" "na" = "false" then .propFail tag "salted-seed-equals-other-salt"
+    else if salt ≠ "-" ∧ salt2 = salt ∧ s2eq ≠ "true" then .propFail tag "same-seed-and-salt-different-stream"
+    else if salt ≠ "-" ∧ salt2 ≠ salt ∧ s2eq ≠ "false" then .propFail tag "salted-seed-equals-other-salt"
+    else if salt ≠ "-" ∧ salt2 ≠ salt ∧ sameBlock then .diff tag "s2eq=true (same HMAC key block)"
+    else if c.output.getD "kdf" "?" ≠ "true" then .diff tag "stream-is-not-SHAKE256(HKDF-SHA3-256(seed,salt))"
     else if res.length ≠ ops.length then .diff tag "result-count"
     else if ¬ (ops.zip res).all (fun (o, r) => rangeOk o r) then .propFail tag "helper-result-out-of-range"
     else match runOps ops draws with
@@ -86,11 +106,20 @@ def prng (c : Case) : Verdict :=
       | some model => if model = res then .ok tag else .diff tag s!"res={",".intercalate model}"
 
 def prngConc (c : Case) : Verdict :=
-  let tag := s!"threads={c.input.getD "threads" "?"}"
-  if c.output.nat "mismatches" = some 0 ∧ c.output.get "got" = c.output.get "want" then .ok tag
+  let heavy := (c.input.nat "threads").getD 0 ≥ 16
+  let tag := s!"threads={if heavy then "many" else "few"},kinds={c.input.getD "kinds" "UR"}"
+  if c.output.nat "mismatches" = some 0 ∧ c.output.get "got" = c.output.get "want" ∧ (c.output.get "got").isSome then .ok tag
   else .propFail tag "concurrent-draws-are-not-a-partition-of-the-stream"
 
+def prngRace (c : Case) : Verdict :=
+  match c.output.getD "race" "?" with
+  | "none" => if c.output.nat "mismatches" = some 0 then .ok "race-detector=clean"
+              else .propFail "race-detector=clean" "concurrent-draws-are-not-a-partition-of-the-stream"
+  | "detected" => .propFail "race-detector=report" "data-race-between-concurrent-calls-on-one-prng"
+  | "unavailable" => .ok "race-detector=unavailable"
+  | _ => .bad "prng_race: no result"
+
 /-- families served by this module (collected by the generated `DrvAll`). -/
-def families : List (String × (Case → Verdict)) := [("prng", prng), ("prng_conc", prngConc)]
+def families : List (String × (Case → Verdict)) := [("prng", prng), ("prng_conc", prngConc), ("prng_race", prngRace)]
 
 end Drv.C30
